@@ -970,6 +970,8 @@ _unop("tanh", lambda x: fn("tanh", x))
 _unop("tan", lambda x: fn("tan", x))
 _unop("atan", lambda x: fn("atan", x), "arctan")
 _unop("sign", lambda x: fn("sign", x), "sgn")
+_unop("log1p", lambda x: fn("log", 1 + x))
+_unop("expm1", lambda x: fn("exp", x) - 1)
 
 
 @reg("softplus")
